@@ -1138,3 +1138,79 @@ func (c *Ctx) ruleStaleHash(dir string) {
 		c.unresolved("functions of " + dir + " that hash or change a *types.Header parameter")
 	}
 }
+
+// R-PRUNEDANCESTRY (C23): ancestry queries about announcing blocks survive the pruning of an abandoned fork.
+func (c *Ctx) rulePrunedAncestry() {
+	c.doc("R-PRUNEDANCESTRY", stateDir+" GrandpaState: every ancestry function handed to the pending-change structures (a parameter of type isDescendantOfFunc) is a GrandpaState method that turns database.ErrNotFound into `not related` (errors.Is on that sentinel), not the block state's IsDescendantOf itself: the announcing block of a change on an abandoned fork is pruned from tree and database, and an error for it would make every later change application fail")
+	sp := c.ssaPkg(stateDir)
+	if sp == nil {
+		return
+	}
+	tolerant := func(fn *ssa.Function) bool {
+		if fn == nil {
+			return false
+		}
+		found := false
+		eachInstr(fn, func(_ *ssa.BasicBlock, _ int, in ssa.Instruction) {
+			call, ok := in.(*ssa.Call)
+			if !ok || calleeName(&call.Call) != "errors.Is" || len(call.Call.Args) != 2 {
+				return
+			}
+			if u, ok := call.Call.Args[1].(*ssa.UnOp); ok {
+				if g, ok := u.X.(*ssa.Global); ok && g.Name() == "ErrNotFound" && strings.HasSuffix(g.Pkg.Pkg.Path(), "internal/database") {
+					found = true
+				}
+			}
+		})
+		return found
+	}
+	n := 0
+	for _, f := range allFuncs(c, sp) {
+		if f.Signature.Recv() == nil || !strings.HasSuffix(namedType(f.Signature.Recv().Type()), "state.GrandpaState") {
+			continue
+		}
+		ord := 0
+		eachInstr(f, func(_ *ssa.BasicBlock, _ int, in ssa.Instruction) {
+			call, ok := in.(*ssa.Call)
+			if !ok || call.Call.StaticCallee() == nil {
+				return
+			}
+			sig := call.Call.StaticCallee().Signature
+			args := call.Call.Args
+			off := 0
+			if sig.Recv() != nil {
+				off = 1
+			}
+			for i := 0; i < sig.Params().Len(); i++ {
+				if !strings.HasSuffix(sig.Params().At(i).Type().String(), "isDescendantOfFunc") || i+off >= len(args) {
+					continue
+				}
+				n++
+				ord++
+				ok := false
+				arg := args[i+off]
+				if ct, isCT := arg.(*ssa.ChangeType); isCT {
+					arg = ct.X
+				}
+				what := arg.String()
+				if mc, isMC := arg.(*ssa.MakeClosure); isMC {
+					if fn, isFn := mc.Fn.(*ssa.Function); isFn {
+						what = fn.Name()
+						target := fn
+						if obj, isObj := fn.Object().(*types.Func); isObj && fn.Synthetic != "" {
+							if real := c.prog.FuncValue(obj); real != nil {
+								target = real
+							}
+						}
+						ok = tolerant(target)
+					}
+				}
+				c.ob("R-PRUNEDANCESTRY", fmt.Sprintf("%s:%s#%d", relName(f.String()), call.Call.StaticCallee().Name(), ord), call.Pos(), ok,
+					"the ancestry function handed over ("+what+") does not treat a block missing from tree and database as unrelated")
+			}
+		})
+	}
+	if n == 0 {
+		c.unresolved("isDescendantOfFunc arguments in GrandpaState")
+	}
+}
